@@ -240,6 +240,9 @@ func TestC10(t *testing.T) {
 	defer r.Finish()
 	r.Assume("repetition signature = placement, side to move, castling rights, en-passant field (as stated); the game starts at the FEN given")
 	r.Assume("insufficient material is checked three-valued: only the classes the property names are constrained")
+	if hx.FuzzCrasher(r, "FuzzC10", genFuzzC10, propC10History) {
+		return
+	}
 
 	hx.Sub(r, "shuffle", r.N(1500, 12000), func(t *rapid.T) hx.Playout {
 		var p rc.Pos
